@@ -36,7 +36,9 @@ def run(ctx):
     ctx.rule("C01.guard", "A3: every access to m_obj is under m_mutex (X for writes/non-const uses, "
              "S or X for const reads) or escapes only into a handle locked on the same mutex", floor=60)
     for cls in WRAPPERS:
-        ctx.step(check_guarded_fields, ctx, "C01.guard", cls)
+        # guarded / guarded_opt have no shared side at all: every access, reading ones included, is exclusive
+        ctx.step(check_guarded_fields, ctx, "C01.guard", cls,
+                 reads_exclusive=cls in ("gmlc::libguarded::guarded", "gmlc::libguarded::guarded_opt"))
     ctx.step(common.handle_rules, ctx, "C01.handle", "gmlc::libguarded::lock_handle", "std::unique_lock")
     ctx.step(common.helper_summaries, ctx, "C01.helpers",
              ["try_lock_handle", "try_lock_handle_for", "try_lock_handle_until"], "X")
